@@ -2767,8 +2767,13 @@ class HasTraits(CHasTraits, metaclass=MetaHasTraits):
         del locked[name]
 
     def _sync_trait_items_modified(self, object, name, old, event):
-        n0 = event.index
-        n1 = n0 + len(event.removed)
+        index = event.index
+        if isinstance(index, slice):
+            # An extended slice was assigned to (or deleted): the event
+            # index is that slice, to be replayed as it is.
+            target = index
+        else:
+            target = slice(index, index + len(event.removed))
         name = name[:-6]
         info = self.__sync_trait__
         if name not in info:
@@ -2779,7 +2784,10 @@ class HasTraits(CHasTraits, metaclass=MetaHasTraits):
             object = object()
             if object_name not in object._get_sync_trait_info()[""]:
                 try:
-                    getattr(object, object_name)[n0:n1] = event.added
+                    if isinstance(index, slice) and not event.added:
+                        del getattr(object, object_name)[target]
+                    else:
+                        getattr(object, object_name)[target] = event.added
                 except:
                     pass
 
